@@ -14,6 +14,8 @@ import json
 import logging
 import os
 import random
+import shutil
+import sys
 import re
 import tempfile
 from pathlib import Path
@@ -134,6 +136,37 @@ def client_override_variant(item):
     return tag, out
 
 
+def client_session(item):
+    """Worker: ONE default (caching) client serves a sequence of input files; returns the digest of each answer."""
+    tag, texts = item
+    bind_repo()
+    import contextlib
+    import io
+    from geophires_x_client import GeophiresXClient
+    from geophires_x_client.geophires_input_parameters import GeophiresInputParameters
+    d = Path(tempfile.mkdtemp(prefix='vc12s_', dir='/dev/shm' if os.path.isdir('/dev/shm') else None))
+    cwd0, argv0 = os.getcwd(), list(sys.argv)
+    logging.disable(logging.CRITICAL)
+    out = []
+    try:
+        client = GeophiresXClient()
+        for k, (name, text) in enumerate(texts):
+            f = d / f'in{k}.txt'
+            f.write_text(text)
+            try:
+                with contextlib.redirect_stdout(io.StringIO()), contextlib.redirect_stderr(io.StringIO()):
+                    r = client.get_geophires_result(GeophiresInputParameters(from_file_path=f))
+                out.append((name, digest_report(Path(r.output_file_path).read_text())))
+            except Exception as ex:  # noqa: BLE001
+                out.append((name, f'failed:{type(ex).__name__}'))
+    finally:
+        os.chdir(cwd0)
+        sys.argv = argv0
+        logging.disable(logging.NOTSET)
+        shutil.rmtree(d, ignore_errors=True)
+    return tag, out
+
+
 def replay_m2(res: Result, files: list):
     bind_repo()
     from geophires_x.GeoPHIRESUtils import read_input_file
@@ -249,8 +282,40 @@ def run(tier: str) -> int:
         base_tag = tag.split('|')[0]
         jobs.append((tag, text))
         groups[base_tag].append(tag)
+    # files made of the SAME lines in which a duplicated parameter ends on a different value: the last occurrence governs each of them,
+    # also when one caching client serves them one after the other (a cache key that forgets the order would mix them up)
+    sessions = []
+    for tag, params in bases[: (6 if tier == 'quick' else 30)]:
+        cand = [(n, r.split(',')[0].split('--')[0].strip()) for n, r in params
+                if n in ('Production Flow Rate per Well', 'Reservoir Depth', 'Plant Lifetime', 'Number of Production Wells')]
+        cand = [(n, v) for n, v in cand if v and len(v.split()) == 1]
+        if not cand:
+            continue
+        n0, r0 = cand[0]
+        try:
+            alt = repr(round(float(r0) * 1.07, 4)) if '.' in r0 else str(int(r0) + 1)
+        except ValueError:
+            continue
+        rest = [(n, r) for n, r in params if n != n0]
+        a = '\n'.join(f'{n}, {r}' for n, r in rest + [(n0, alt), (n0, r0)]) + '\n'      # ends on the original value
+        b = '\n'.join(f'{n}, {r}' for n, r in rest + [(n0, r0), (n0, alt)]) + '\n'      # same lines, ends on the other value
+        for nm, text in ((f'{tag}|sessA', a), (f'{tag}|sessB', b)):
+            jobs.append((nm, text))
+        sessions.append((tag, [(f'{tag}|sessA', a), (f'{tag}|sessB', b), (f'{tag}|sessA', a)]))
+    sess_out = dict(sim.call_in_pool('harness.c12:client_session', sessions)) if sessions else {}
     out = sim.run_many(jobs, 'harness.c12:project', keep_report=True)
     by_tag = {o['tag']: o for o in out}
+    for tag, answers in sess_out.items():
+        for k, (nm, dg) in enumerate(answers):
+            ref = by_tag.get(nm)
+            want = digest_report(ref.get('report')) if ref and ref['status'] == 'ok' else None
+            res.case(f'{nm}|client-session#{k}')
+            if want is not None and dg != want:
+                res.violation({'clause': 'C12_last_governs_client', 'base': tag, 'request': k},
+                              f'one caching client, files made of the same lines: request {k} ({nm}) was answered with {dg}, the file itself gives {want}',
+                              {'base_input': ref['input'], 'session': [t for _, t in next(x[1] for x in sessions if x[0] == tag) and []] or None,
+                               'variant_input': ref['input'], 'status': 'session', 'error': None})
+    res.cov['client_sessions'] = len(sess_out)
     traces, tid = [], 0
     for tag, members in groups.items():
         base = by_tag[f'{tag}|base']
